@@ -39,7 +39,40 @@ func options() ggen.Options {
 		RepeatAuthor:      !pbt.Excluded("subject_repeats_author"),
 		RepeatDate:        !pbt.Excluded("subject_repeats_date"),
 		NumericSpacePaths: !pbt.Excluded("path_numeric_space"),
+		// widened later: executable files (mode 100755 in the summary lines), files of hundreds of lines
+		// (three- and four-digit numstat figures), names that are a prefix / suffix of another name,
+		// commits that import 10-30 files at once, author names with inner punctuation, up to 6 authors,
+		// path components that begin with a blank
+		ExecFiles: true, BigFiles: true, AffixNames: true, BulkAdds: true, PunctAuthors: true, MaxAuthors: 6,
+		LeadingBlankPaths: !pbt.Excluded("path_leading_blank"),
 	}
+}
+
+// genHashes draws distinct abbreviated hashes: mostly 7-10 hex digits, sometimes the 11-16 digits git
+// uses in large repositories, now and then a full 40-digit name.
+func genHashes(t *rapid.T, n int) []string {
+	seen := map[string]bool{}
+	var out []string
+	for len(out) < n {
+		var h string
+		switch rapid.IntRange(0, 9).Draw(t, "hashLength") {
+		case 8:
+			h = rapid.StringMatching(`[0-9a-f]{11,16}`).Draw(t, "hash")
+		case 9:
+			h = rapid.StringMatching(`[0-9a-f]{40}`).Draw(t, "hash")
+		default:
+			h = rapid.StringMatching(`[0-9a-f]{7,10}`).Draw(t, "hash")
+		}
+		if seen[h] {
+			h = fmt.Sprintf("%s%x", h[:6], len(out)+1)
+			if seen[h] {
+				continue
+			}
+		}
+		seen[h] = true
+		out = append(out, h)
+	}
+	return out
 }
 
 func genReal(t *rapid.T) RealCase {
@@ -52,7 +85,28 @@ func genEmu(t *rapid.T) EmuCase {
 	if err != nil {
 		panic("c14: generated history does not simulate: " + err.Error())
 	}
-	return EmuCase{History: h, Hashes: ggen.GenHashes(t, len(sim.Log()))}
+	return EmuCase{History: h, Hashes: genHashes(t, len(sim.Log()))}
+}
+
+// SeqCase: several logs parsed one after the other in one process, without the reset hook in
+// between (the statement is about every call, not about the first call of a process).
+type SeqCase struct {
+	First  EmuCase `json:"first"`
+	Second EmuCase `json:"second"`
+}
+
+func genSeq(t *rapid.T) SeqCase {
+	one := func() EmuCase {
+		o := options()
+		o.MaxCommits = 6
+		h := ggen.Gen(t, o)
+		sim, err := ggen.Simulate(h)
+		if err != nil {
+			panic("c14: generated history does not simulate: " + err.Error())
+		}
+		return EmuCase{History: h, Hashes: genHashes(t, len(sim.Log()))}
+	}
+	return SeqCase{First: one(), Second: one()}
 }
 
 // ---- oracle ----------------------------------------------------------------------------
@@ -244,6 +298,77 @@ func checkEmu(c EmuCase) pbt.Verdict {
 	return classify(c.History, sim, exp)
 }
 
+func parseNoReset(text string) ([]git.CommitMessage, string) {
+	var got []git.CommitMessage
+	p := pbt.Call(func() { got = git.BuildMessageByInput(text) })
+	return got, p
+}
+
+// checkSeq: log A, log B, log A again through BuildMessageByInput in one process. Every call must
+// give its own log's commits, and a list handed out earlier must not change afterwards.
+func checkSeq(c SeqCase) pbt.Verdict {
+	type side struct {
+		sim  *ggen.Sim
+		exp  []ggen.Expected
+		text string
+	}
+	mk := func(e EmuCase) side {
+		sim, err := ggen.Simulate(e.History)
+		if err != nil {
+			ggen.HarnessFatal("case does not simulate: %v", err)
+		}
+		if len(e.Hashes) != len(sim.Log()) {
+			ggen.HarnessFatal("case has %d hashes for %d commits", len(e.Hashes), len(sim.Log()))
+		}
+		return side{sim, ggen.Expect(sim, e.Hashes), ggen.Emulate(sim, e.Hashes)}
+	}
+	a, b := mk(c.First), mk(c.Second)
+	git.VerifResetGit()
+	fail := func(what, msg string, got []git.CommitMessage, s side) pbt.Verdict {
+		confirm(a.sim)
+		confirm(b.sim)
+		return pbt.Fail("%s: %s\n-- parsed --\n%s-- its log text --\n%s\n-- the first log --\n%s\n-- the second log --\n%s", what, msg, describe(got), s.text, a.text, b.text)
+	}
+	gotA, p := parseNoReset(a.text)
+	if p != "" {
+		return fail("first log", "BuildMessageByInput panicked: "+p, nil, a)
+	}
+	if d := compare(gotA, a.exp); d != "" {
+		return fail("first log", d, gotA, a)
+	}
+	gotB, p := parseNoReset(b.text)
+	if p != "" {
+		return fail("second log, parsed after the first one in the same process", "BuildMessageByInput panicked: "+p, nil, b)
+	}
+	if d := compare(gotB, b.exp); d != "" {
+		return fail("second log, parsed after the first one in the same process", d, gotB, b)
+	}
+	if d := compare(gotA, a.exp); d != "" {
+		return fail("commit list returned for the first log, read again after the second log was parsed", d, gotA, a)
+	}
+	gotA2, p := parseNoReset(a.text)
+	if p != "" {
+		return fail("first log parsed a second time", "BuildMessageByInput panicked: "+p, nil, a)
+	}
+	if d := compare(gotA2, a.exp); d != "" {
+		return fail("first log parsed a second time", d, gotA2, a)
+	}
+	if d := compare(gotB, b.exp); d != "" {
+		return fail("commit list returned for the second log, read again after a later call", d, gotB, b)
+	}
+	if d := compare(gotA, a.exp); d != "" {
+		return fail("commit list returned by the first call, read again after two later calls", d, gotA, a)
+	}
+	v := classify(c.Second.History, b.sim, b.exp)
+	v.NonTrivial = v.NonTrivial && len(a.exp) >= 1
+	raw, _ := json.Marshal(c)
+	v.Canon = string(raw)
+	if n := len(a.sim.Log()); n > 0 && len(a.sim.Log()[n-1].Entries) == 0 {
+		v.Classes = append(v.Classes, "first_log_ends_with_a_commit_without_changes")
+	}
+	return v
+}
+
 func init() {
 	pbt.SetProperty("C14")
 	pbt.Describe("rapid-generated operation lists: 1-12 commits by 1-4 authors (names with spaces, digits, non-ASCII), up to 5 live files per branch; per commit 1-5 operations (add text/binary file, modify = drop/insert lines, delete, rename: other name / other directory / to the root / one directory up / down / first or inner directory component replaced / directory put in front, unchanged, lightly edited or rewritten so that git shows delete+create); paths with blanks, nested directories, number-then-blank components, re-creation of deleted paths; empty commits, a side branch with merge commits (clean by construction) or left unmerged; subjects from a token grammar (words, conventional prefixes with/without scope, [text], [hex], bare hex words, ->, =>, other dates, the commit's own date, the author's name, colons, quotes, non-ASCII); author dates in four time zones. The operation list is simulated (file trees with globally unique lines, tree diff, git's rename pairing and similarity estimate, git's rename notation) which yields both the expected commit list and the emulated log text. 'cli' cases build the repository with real git (git commit with GIT_AUTHOR_*/GIT_COMMITTER_* fixed), validate simulation and emulator against it (git diff-tree --numstat -M per commit, rev-list, ls-tree, git log byte for byte), run the built `coca git` inside it and read coca_reporter/commits.json, and feed the real log text to BuildMessageByInput; 'emu' cases feed emulated log text to BuildMessageByInput. Expected: in log order one entry per reachable non-merge commit with at least one changed path, with hash, author, date, subject as printed, and the multiset of (path as printed by numstat, added, deleted, create/delete/\"\" mode), binary = 0/0. Non-trivial = at least 2 commits with changes and at least one of: rename, delete, binary file, path with a blank, subject with a special token; distinct = hash of the operation list.",
@@ -254,13 +379,14 @@ func init() {
 		"`coca git` and all harness git calls run with HOME pointing to an empty directory and system/global git configuration disabled")
 	// the fast check first: parser defects are found and shrunk in seconds there
 	pbt.Register("emu", 3000, 20000, genEmu, checkEmu)
+	pbt.Register("seq", 600, 4000, genSeq, checkSeq)
 	pbt.Register("cli", 60, 150, genReal, checkReal)
 }
 
 func selfTest(t *testing.T, n int) {
 	base := cli.Scratch("c14-self-")
 	defer os.RemoveAll(base)
-	if err := ggen.SelfTest(base, n); err != nil {
+	if err := ggen.SelfTestWith(base, n, options()); err != nil {
 		fmt.Printf("HARNESS-ERROR (not a violation): %v\n", err)
 		t.Fatalf("HARNESS-ERROR: the git history generator disagrees with real git")
 	}
